@@ -508,8 +508,12 @@ func (s *Store) snapshotActive() map[string]secretState {
 	defer s.active.Unlock()
 	m := make(map[string]secretState)
 	for name, cs := range s.active.m {
+		// A secret with an outstanding handle is never removed by applyUpdates,
+		// so it must not be treated as expired here either: otherwise it would
+		// stay in the store but never be polled again.
+		_, pinned := s.active.f[name]
 		m[name] = secretState{
-			expired: s.hasExpired(cs),
+			expired: !pinned && s.hasExpired(cs),
 			version: cs.Secret.Version,
 		}
 	}
